@@ -165,10 +165,14 @@ struct J {  // tiny JSON object builder
   J &num(const std::string &k, double v) {
     key(k);
     char b[64];
-    if (v == static_cast<double>(static_cast<int64_t>(v)) && v > -1e15 && v < 1e15) {
+    if (v > -1e15 && v < 1e15 && v == static_cast<double>(static_cast<int64_t>(v))) {
       snprintf(b, sizeof b, "%" PRId64, static_cast<int64_t>(v));
     } else {
-      snprintf(b, sizeof b, "%.9g", v);
+      if (v != v || v - v != 0) {
+        snprintf(b, sizeof b, "\"%g\"", v);  // NaN / inf are not JSON numbers
+      } else {
+        snprintf(b, sizeof b, "%.9g", v);
+      }
     }
     s += b;
     return *this;
@@ -344,6 +348,11 @@ inline void death_callback() {
 // rapidcheck helpers. All ranges inclusive; wrapped in resize so that they do not collapse at small sizes.
 inline int R(int lo, int hi) { return *rc::gen::resize(100, rc::gen::inRange<int>(lo, hi + 1)); }
 inline int64_t R64(int64_t lo, int64_t hi) {
+  if (hi == INT64_MAX) {
+    if (lo == INT64_MIN) return *rc::gen::resize(100, rc::gen::arbitrary<int64_t>());
+    const int64_t v = *rc::gen::resize(100, rc::gen::inRange<int64_t>(lo - 1, hi));
+    return v + 1;
+  }
   return *rc::gen::resize(100, rc::gen::inRange<int64_t>(lo, hi + 1));
 }
 inline bool P(int percent) { return R(0, 99) < percent; }
@@ -402,6 +411,19 @@ inline void set_case(const std::string &mode, std::vector<int64_t> tokens, std::
   c.tokens = std::move(tokens);
   c.describe = std::move(describe);
   c.message.clear();
+}
+
+// Runs the oracle part of a case; a C++ exception escaping from the code under test is a failure of the case
+// (rapidcheck's own control-flow exceptions are only thrown by generators, which run outside this guard).
+template <class F>
+std::string guarded(F &&f) {
+  try {
+    return f();
+  } catch (const std::bad_alloc &) {
+    return "exception: std::bad_alloc";
+  } catch (const std::exception &e) {
+    return std::string("exception: ") + e.what();
+  }
 }
 
 inline int harness_main(int argc, char **argv, const Harness &h) {
